@@ -543,7 +543,7 @@ func c13Post(c *Ctx, m *Part) {
 func init() {
 	register(&PropDef{
 		ID: "C13", Level: "model_checking",
-		Rule:        "dictionary: all names of length <=3 over a 40-symbol alphabet (65 641 incl. empty) + generated identifiers + Unicode/edge names, x 5 replacement prefixes, each name hashed twice in opposite orders; dotted compositions depth <=3; every worker is a separate process with its own enumeration order (digests compared); histories: all sequences of length <=3 (thorough 4) over 8 names + 2 line redactions from a reset side table, states = canonical side-table contents; CLI pass over 1 600+ names as attr.ns (--redactNamespaces) and as filter keys (--redactFieldNames). distinct = (replacement, name) pairs / histories / CLI names",
+		Rule:        "dictionary: all names of length <=3 over a 40-symbol alphabet (65 641 incl. empty) + generated identifiers + Unicode/edge names, x 5 replacement prefixes, each name hashed twice in opposite orders; dotted compositions depth <=3; every worker is a separate process with its own enumeration order (digests compared); histories: all sequences of length <=3 (thorough 4) over 8 names + 2 line redactions from a reset side table, states = canonical side-table contents; CLI pass over 1 600+ names as attr.ns (--redactNamespaces) and as filter keys (--redactFieldNames). distinct = (replacement, name) pairs / histories / CLI names" + "; big dictionary: 2.6 M (thorough 10 M) identifiers (1.6 M / 9 M of equal length 8) hashed twice per process, every worker in its own order (ascending, descending, 14 prime strides); 9 replacement texts incl. template-like ones; plan-summary keys through the CLI",
 		Assumptions: []string{"collision-freedom is decided for the enumerated dictionary only", "only a single leading '$' is exercised"},
 		Run:         c13Run, Post: c13Post,
 	})
